@@ -48,7 +48,8 @@ BINOPS = ['+', '-', '*', '/', '^', '&', '=', '<>', '<', '<=', '>', '>=']
 CMPOPS = ['=', '<>', '<', '<=', '>', '>=']
 UNOPS = ['neg', 'pct']
 
-NUMBERS = [0, 1, -1, 2, 3, 255, 1000000, 0.5, -2.5, 0.1, 1.25, 3.0, -0.75,
+# (0.00001, 1.5e-7: python writes them with an exponent, Excel does not)
+NUMBERS = [0.00001, -1.5e-7, 0, 1, -1, 2, 3, 255, 1000000, 0.5, -2.5, 0.1, 1.25, 3.0, -0.75,
            64, 1e-3,
            # neighbouring doubles: different numbers that print alike
            0.3, 0.30000000000000004, 3.3, 3.3000000000000003,
